@@ -972,10 +972,12 @@ class Engine:
         if m and len(args) == 2:
             la, lb = self.peel(args[0]), self.peel(args[1])
             lt = m.group(1)
-            if any(isinstance(x, StrV) for x in (la, lb)) or base_type_name(lt) in ("String", "str"):
+            if any(isinstance(x, StrV) for x in (la, lb)) or base_type_name(lt) in ("String", "str", "OsString", "OsStr", "PathBuf", "Path"):
                 ea, eb = self.to_str(la), self.to_str(lb)
                 e = ea == eb
-                return Scalar(e if m.group(3) == "eq" else z3.Not(e))
+                res = Scalar(e if m.group(3) == "eq" else z3.Not(e))
+                self.events.append(Event("streq", c, [la, lb], res, site, rargs=[la, lb]))
+                return res
             # field-less enum equality: compare discriminants when a derived impl exists in the dump
             tn = base_type_name(lt)
             if tn in self.opaque_eq_types:
